@@ -18,10 +18,12 @@ META = {
         "defaults in config.py; C20.5 the recursive dump of a field is guarded by isinstance(value, known_types) where "
         "known_types = SUPPORTED_TYPES + tuple(config.serialize_handlers) computed from the live handler table in the "
         "same call; C20.6 Config.copy(), used for every 1.0 request on a 2.0 server, carries serialize_method, "
-        "ignore_attribute and the handlers."),
+        "ignore_attribute and the handlers; C20.7 every constructor receiving a config hands that very object to the package "
+        "constructors it calls (a server or transport never falls back to the DEFAULT handlers / method names)."),
     "does_not_decide": "the dumped values themselves.",
     "rules": {"C20.1": "dominance + provenance", "C20.2": "provenance at recursive call sites", "C20.3": "provenance term shape + dominance",
-              "C20.4": "provenance + package-wide literal scan", "C20.5": "dominating guard + provenance", "C20.6": "sibling agreement (shared with C13.2)"},
+              "C20.4": "provenance + package-wide literal scan", "C20.5": "dominating guard + provenance", "C20.6": "sibling agreement (shared with C13.2)",
+              "C20.7": "provenance of the config argument at constructor-to-constructor call sites"},
     "assumptions": [],
 }
 
@@ -174,3 +176,7 @@ def check(ck):
 
     # ---- C20.6 per-request copy keeps the customisation -----------------------------------------------------------
     common.check_config_copy(ck, "C20.6", only=("serialize_method", "ignore_attribute", "serialize_handlers", "use_jsonclass", "classes"))
+
+    # ---- C20.7 the caller's Config reaches every layer -----------------------------------------------------------------
+    common.check_config_forwarding(ck, "C20.7")
+    ck.floor("C20.7", 6)
